@@ -364,11 +364,11 @@ class Layout:
         self.rng = rng
         self.wild = wild
 
-    def blank(self):            # a required gap inside a selector / value: must contain a blank (F14: newline-only gaps change meaning)
+    def blank(self):            # a required gap inside a selector / value
         if not self.wild:
             return ' '
         r = self.rng
-        return r.choice([' ', '  ', '\t', ' \t ', ' \n', '\n ', ' \r\n ', '   '])
+        return r.choice([' ', '  ', '\t', ' \t ', ' \n', '\n ', ' \r\n ', '   ', '\n', '\r\n', '\n\n'])
 
     def opt(self):              # an optional gap that is present
         if not self.wild:
@@ -445,20 +445,16 @@ def show_stmts(stmts, L, last_semicolon=True):
     out = ''
     for i, s in enumerate(stmts):
         gap = L.stmt_gap() if (i or L.wild) else ''
-        if i and stmts[i - 1][0] == 'call' and not gap.startswith((' ', '\t')):
-            gap = ' ' + gap             # known finding F14b: after `.m();` the selector lexer mode survives until a blank
         out += gap
         k = s[0]
         if k == 'decl':
             last = (i == len(stmts) - 1)
-            semi = ';' if (not last or last_semicolon or not L.wild or L.rng.random() < 0.5) else ''
+            semi = '' if (last and getattr(L, 'toggle_semi', False) and L.rng.random() < 0.5) else ';'
             out += s[1] + ':' + L.opt() + show_value(s[2], L) + (L.blank() + '!important' if s[3] else '') + semi
         elif k == 'var':
             out += s[1] + ':' + L.opt() + show_value(s[2], L) + ';'
         elif k == 'rule':
             inner_gap = L.stmt_gap()
-            if s[2] and s[2][-1][0] == 'call' and not inner_gap.startswith((' ', '\t')):
-                inner_gap = ' ' + inner_gap
             out += (',' + L.opt()).join(show_sel(x, L) for x in s[1]) + (L.blank() if s[3].get('sp_brace') else '') + '{' + show_stmts(s[2], L) + inner_gap + '}'
         elif k == 'media':
             out += '@media' + L.blank() + show_query(s[1], L) + L.blank() + '{' + show_stmts(s[2], L) + L.stmt_gap() + '}'
